@@ -66,14 +66,11 @@ Fixpoint monitor (t : tables) (c : config) (a : amap) (steps : list hstep) (i : 
       end
   end.
 
-(* C01 histories start from an empty store *)
+(* histories start from the users the harness planted itself (t_known) *)
 Definition spec_ok (cs : case) : bool :=
   match cs with
   | Hist c t init steps =>
-      match init with
-      | [] => match monitor t c [] steps 0 with None => true | Some _ => false end
-      | _ => true
-      end
+      match monitor t c (t_known t) steps 0 with None => true | Some _ => false end
   end.
 
 Definition mismatches (cs : list case) : list N := failures agrees cs.
